@@ -37,8 +37,12 @@ def run(prog, check):
     if P is None:
         raise AnalysisError('EquationParser not found')
     deco_pass = alias_pass = rebuild = None
+    from ..inline import judged_at_callers
+    at_callers = judged_at_callers(prog, list(P.methods.values()))
     for f in P.methods.values():
-        src = f.node
+        if f.key in at_callers:
+            continue            # a private helper of one of the passes: judged as part of it
+        src = flatten(prog, f).node
         app_deco = any(isinstance(c, ast.Call) and call_name(c) == 'append' and isinstance(c.func.value, ast.Attribute)
                        and c.func.value.attr == 'Decoration' for c in ast.walk(src))
         rem_endo = any(isinstance(c, ast.Call) and call_name(c) == 'remove' and isinstance(c.func.value, ast.Attribute)
@@ -54,6 +58,7 @@ def run(prog, check):
         raise AnalysisError('reduction passes not found: deco=%s alias=%s rebuild=%s' % (deco_pass, alias_pass, rebuild))
     for f in (deco_pass, alias_pass, rebuild):
         check.saw(f)
+    deco_pass, rebuild = flatten(prog, deco_pass), flatten(prog, rebuild)
     # ---- R1 ----------------------------------------------------------------------------------------
     g = cfgmod.build(deco_pass)
     loops = [n for n in deco_pass.node.body if isinstance(n, ast.For) and any(
@@ -86,10 +91,33 @@ def run(prog, check):
              'on each of %d paths the same tuple is appended to Decoration and removed from Endogenous, or neither' % len(paths)
              if ok else 'a path loses (remove without append), duplicates (append without remove) or swaps the moved equation',
              'a system with a variable nothing depends on')
+    # two-phase form: the moving loop ranges over a local list that an earlier loop over the endogenous block filled; the
+    # decision (and the item) is then that of the filling loop
+    decide_nodes, decide_loop = apps + rems, loop
+    fill_item_ok = True
+    if isinstance(loop.iter, ast.Name):
+        fills = []
+        for n_ in g.stmt_nodes():
+            if n_.kind == 'stmt':
+                for c_ in ast.walk(n_.ast):
+                    if isinstance(c_, ast.Call) and call_name(c_) == 'append' and isinstance(c_.func, ast.Attribute) and \
+                            isinstance(c_.func.value, ast.Name) and c_.func.value.id == loop.iter.id and c_.args:
+                        fors = [l for l in n_.loops if isinstance(l, ast.For)]
+                        if fors and 'Endogenous' in unparse(fors[0].iter):
+                            fills.append((n_, c_, fors[0]))
+        if fills:
+            decide_nodes = [f_[0] for f_ in fills]
+            decide_loop = fills[0][2]
+            ftv = target_names(decide_loop.target)
+            fill_item_ok = all(unparse(f_[1].args[0]).replace(' ', '') in ('(%s)' % ','.join(ftv), ','.join(ftv)) and f_[2] is decide_loop
+                               for f_ in fills)
     # the moved tuple is the loop item (name and its current equation)
     tv = target_names(loop.target)
     moved = arg_of(apps[0].ast, 'append', 'Decoration') if apps else ''
-    okt = moved.replace(' ', '') == '(%s)' % ','.join(tv).replace(' ', '')
+    okt = (moved.replace(' ', '') == '(%s)' % ','.join(tv).replace(' ', '') or
+           (isinstance(loop.target, ast.Name) and moved == loop.target.id)) and fill_item_ok
+    if decide_loop is not loop:
+        tv = target_names(decide_loop.target)
     check.ob('C03.R1', '%s::moved-item-is-loop-item' % deco_pass.key, okt, '%s:%d' % (deco_pass.module.rel, loop.lineno),
              'moved item %s is the loop item' % moved if okt else 'moved item %s is not the loop item (%s)' % (moved, tv),
              'a decorative variable must keep its own equation')
@@ -99,7 +127,8 @@ def run(prog, check):
     if isinstance(it, ast.Name) and it.id in subst:
         it = subst[it.id]
     copy_ok = (isinstance(it, ast.Subscript) and isinstance(it.slice, ast.Slice) and 'Endogenous' in unparse(it.value)) or \
-        (isinstance(it, ast.Call) and call_name(it) in ('list', 'tuple', 'copy') and 'Endogenous' in unparse(it))
+        (isinstance(it, ast.Call) and call_name(it) in ('list', 'tuple', 'copy') and 'Endogenous' in unparse(it)) or \
+        (decide_loop is not loop)        # a separate list filled beforehand
     check.ob('C03.R1', '%s::iterates-a-copy' % deco_pass.key, copy_ok, '%s:%d' % (deco_pass.module.rel, loop.lineno),
              'the pass iterates a copy of Endogenous while removing from it' if copy_ok else
              'the pass removes from the list it is iterating: every second candidate is skipped (not a value change, but a lost reduction)'
@@ -110,7 +139,7 @@ def run(prog, check):
         for c in ast.walk(f.node):
             if isinstance(c, ast.Call) and call_name(c) in ('remove', 'pop', 'clear') and isinstance(c.func.value, ast.Attribute) \
                     and c.func.value.attr in PARTITIONS:
-                if f is deco_pass and c.func.value.attr == 'Endogenous' and call_name(c) == 'remove':
+                if f.key == deco_pass.key and c.func.value.attr == 'Endogenous' and call_name(c) == 'remove':
                     continue
                 n_other += 1
                 check.ob('C03.R1', '%s::foreign-removal(%s)' % (f.key, unparse(c)), False, '%s:%d' % (f.module.rel, c.lineno),
@@ -206,7 +235,10 @@ def run(prog, check):
         if all_eq:
             k = target_names(inner.target)[0]
             src = resolve_expr(c.args[0], asub) if c.args else None
-            src_ok = isinstance(src, ast.Subscript) and 'AllEquations' in unparse(src.value) and unparse(src.slice) == k
+            itv = target_names(inner.target)
+            items_val = itv[1] if (len(itv) == 2 and isinstance(inner.iter, ast.Call) and call_name(inner.iter) == 'items') else None
+            src_ok = (isinstance(src, ast.Subscript) and 'AllEquations' in unparse(src.value) and unparse(src.slice) == k) or \
+                (items_val is not None and isinstance(src, ast.Name) and src.id == items_val)
             stores = [s_ for s_ in ast.walk(inner) if isinstance(s_, ast.Assign) and isinstance(s_.targets[0], ast.Subscript)
                       and 'AllEquations' in unparse(s_.targets[0].value) and unparse(s_.targets[0].slice) == k]
             refresh = [s_ for s_ in ast.walk(inner) if isinstance(s_, ast.Assign) and isinstance(s_.targets[0], ast.Subscript)
@@ -222,7 +254,7 @@ def run(prog, check):
                 for r_ in refresh:
                     arg = resolve_expr(r_.value, asub).args[0]
                     same_key = isinstance(arg, ast.Subscript) and 'AllEquations' in unparse(arg.value) and unparse(arg.slice) == k
-                    same_val = unparse(arg) == unparse(resolve_expr(st.value, asub))
+                    same_val = unparse(resolve_expr(arg, asub)) == unparse(resolve_expr(st.value, asub))
                     if same_key or same_val:
                         good.append(ga.node_of(r_))
                 # every way from the store back to the loop header (or out of the loop) refreshes the token list
@@ -310,8 +342,8 @@ def run(prog, check):
                 return src
         if isinstance(e, ast.Name):
             fl = e.id
-            sets = [n for n in ast.walk(loop) if isinstance(n, ast.Assign) and fl in target_names(n.targets[0])]
-            init_false = any(isinstance(n.value, ast.Constant) and n.value.value is False and n in loop.body for n in sets)
+            sets = [n for n in ast.walk(decide_loop) if isinstance(n, ast.Assign) and fl in target_names(n.targets[0])]
+            init_false = any(isinstance(n.value, ast.Constant) and n.value.value is False for n in sets)
             trues = [n for n in sets if isinstance(n.value, ast.Constant) and n.value.value is True]
             others = [n for n in sets if not (isinstance(n.value, ast.Constant) and n.value.value in (True, False))]
             if not init_false or not trues or others:
@@ -321,7 +353,7 @@ def run(prog, check):
                 # the enclosing scan loop and the membership test that guards the assignment
                 p_ = getattr(n, '_parent', None)
                 guard, scan = None, None
-                while p_ is not None and p_ is not loop:
+                while p_ is not None and p_ is not decide_loop:
                     if isinstance(p_, ast.If) and guard is None:
                         guard = p_
                     if isinstance(p_, ast.For) and scan is None:
@@ -336,8 +368,8 @@ def run(prog, check):
             return src
         return None
     srcs = []
-    flag_ok = bool(apps + rems)
-    for mv in apps + rems:
+    flag_ok = bool(decide_nodes)
+    for mv in decide_nodes:
         found_src = None
         for test, outcome in g.conditions_at(mv):
             for txt, val, e in atomic_facts(test, outcome):
